@@ -236,6 +236,19 @@ def run_shard(tier, seed, idx, n, res, tmp):
                         res.see('malformed', edit, 'reported')
                 else:
                     res.see('malformed', edit, 'still_well_formed')
+        # expressions that are malformed whatever the schema is (judged without the repository's parser)
+        a0 = attr_names[0] if attr_names else 'a'
+        for bad_text in ['', ' ', '()', a0, a0 + '=', '=1', a0 + '=1 and', a0 + '==1', a0 + '=1 or or ' + a0 + '=2',
+                         '(' + a0 + '=1', a0 + '=1)', a0 + '=1 ' + a0 + '=2', 'and', a0 + '="unterminated',
+                         a0 + "='x'", a0 + '=1;', a0 + ' = = 1'][ci % 3::3]:
+            res.count('malformed_checked')
+            r2 = run(['-f', bad_text, '-a', ':all'])
+            if not (r2.code == 1 and r2.received is None and 'rror' in r2.stderr):
+                res.violation({'kind': 'malformed_filter_not_reported', 'code': r2.code, 'fixed_list': True},
+                              {'expr': bad_text, 'stderr': r2.stderr[-200:], 'exc': repr(r2.exc)},
+                              {'workload': 'malformed', 'expr': bad_text, 'files': files})
+            else:
+                res.see('malformed', 'fixed_list', bad_text[:12])
         # namespace lists
         subsets = [list(s) for kk in range(len(nsnames) + 1) for s in itertools.combinations(nsnames, kk)]
         for sub in subsets:
